@@ -633,6 +633,12 @@ func (n *Node) fastForward() error {
 	resp := n.getBestFastForwardResponse()
 	if resp == nil {
 		n.logger.Error("getBestFastForwardResponse returned nil => Babbling")
+		n.coreLock.Lock()
+		err = n.core.setHeadAndSeq()
+		n.coreLock.Unlock()
+		if err != nil {
+			return err
+		}
 		n.transition(_state.Babbling)
 		return fmt.Errorf("getBestFastForwardResponse returned nil")
 	}
